@@ -168,6 +168,11 @@ class MenuConfigState:
         if not parent:
             parent = self.kconf.top_node
         self.shown = self.shown_nodes(parent)
+        if self.cur_menu not in self.shown:
+            # The menu being left is not displayed in its parent (it was reached by jumping to it or in
+            # show-all mode, e.g. a menu hidden by 'visible if'): show it in show-all mode
+            self.show_all = True
+            self.shown = self.shown_nodes(parent)
         self.sel_node_i = self.shown.index(self.cur_menu)
         self.cur_menu = parent
 
